@@ -203,7 +203,7 @@ Proof. vm_compute. repeat split; reflexivity. Qed.
    - the two lexical fault classes, for EVERY scanner configuration: C19_stray_brace,
      C19_illegal_char (+ the exact line: C19_stray_brace_line, C19_illegal_char_line). *)
 From Soy Require Import Model.Utf8 Model.Token Model.Lexer Model.RawText Model.ExprParser Model.Parser
-  Proofs.ErrTokProofs Proofs.ParseErrBound Proofs.LexErrPos.
+  Proofs.ErrTokProofs Proofs.ParseErrBound Proofs.LexErrPos Proofs.LexEofPos Proofs.ParseEndToEnd.
 
 Theorem C19_parse_error_position_partial :
   forall inlen lexq unq pexpr efuel fuel ts t c st,
@@ -274,6 +274,61 @@ Theorem C19_illegal_char_line :
 Proof. exact illegal_char_line. Qed.
 Print Assumptions C19_illegal_char_line.
 
+(* unterminated constructs: whenever the scan of a block comment / a string ends the whole scan, the
+   last item sent is the error item at the END of the input, and a tag that meets the end of the
+   input reports there too; that line is the last line and is not before the line of any earlier
+   position (where the construct was opened) *)
+Theorem C19_block_comment_error_at_end :
+  forall inp fuel star l l',
+    (0 <= l_pos l <= Z.of_nat (length inp))%Z ->
+    block_comment_loop inp (Z.of_nat (length inp)) fuel star l = Ok (LDone, l') ->
+    l_out l' = err_item (Z.of_nat (length inp)) e_comment_eof :: l_out l.
+Proof. exact block_comment_error_at_end. Qed.
+Print Assumptions C19_block_comment_error_at_end.
+
+Theorem C19_string_error_at_end :
+  forall inp fuel q l l',
+    (0 <= l_pos l <= Z.of_nat (length inp))%Z ->
+    string_loop inp (Z.of_nat (length inp)) fuel q l = Ok (LDone, l') ->
+    l_out l' = err_item (Z.of_nat (length inp)) e_string_eof :: l_out l.
+Proof. exact string_error_at_end. Qed.
+Print Assumptions C19_string_error_at_end.
+
+Theorem C19_unclosed_tag_at_end :
+  forall inp l, (0 <= l_pos l)%Z -> (Z.of_nat (length inp) <= l_pos l)%Z ->
+    exists l', lex_inside_tag inp (Z.of_nat (length inp)) l = Ok (LDone, l') /\
+               l_out l' = err_item (l_pos l) e_unclosed_tag :: l_out l.
+Proof. exact unclosed_tag_at_end. Qed.
+Print Assumptions C19_unclosed_tag_at_end.
+
+Theorem C19_end_of_input_line :
+  forall src opened, opened <= N.of_nat (length src) ->
+    line_at src (N.of_nat (length src)) = lines src /\ line_at src opened <= line_at src (N.of_nat (length src)).
+Proof. exact end_of_input_line. Qed.
+Print Assumptions C19_end_of_input_line.
+
+(* unknown command {foo $x}: the token after the expression that is neither `}` nor `|` is reported *)
+Theorem C19_print_trailing_token_reported :
+  forall inlen pe lf f pos e dirs s tok s1,
+    c_next s = COk tok s1 -> tis tok pit_RightDelim = false -> tis tok pit_Pipe = false -> t_pos tok <= inlen ->
+    exists cls, cmd_print_loop inlen pe lf (S f) pos e dirs s = CErr tok cls s1.
+Proof. exact print_trailing_token_reported. Qed.
+Print Assumptions C19_print_trailing_token_reported.
+
+(* scanner model and parser model COMPOSED, for all inputs of one shape: plain ASCII text (any number
+   of lines) followed by a stray } and anything whatsoever after it -- the model of parse.SoyFile
+   returns the lexical error positioned at the scanner's error item, whose line is the brace's line *)
+Theorem C19_stray_brace_end_to_end :
+  forall ul ud lexq unq fuel txt rest,
+    Forall plain txt ->
+    let s := txt ++ 125 :: rest in
+    let e := err_item (Z.of_nat (length txt) + 1) e_close_brace in
+    lex_items ul ud (S fuel) false s = Ok [e] /\
+    (exists st, po_result (soy_file (N.of_nat (length s)) lexq unq [e]) = PErr e e_lexical st) /\
+    line_at s (t_pos e) = 1 + count_nl txt.
+Proof. exact stray_brace_end_to_end. Qed.
+Print Assumptions C19_stray_brace_end_to_end.
+
 (* End to end, scanner model + parser model: a stray } on line 5, an illegal character in a tag on
    line 5, end of input inside a template -- the reported token's line is 5, 5 and 6 (not 1). *)
 Definition ex_parse (s : bstr) : option (N * N * N) :=
@@ -299,5 +354,12 @@ Example C19_parse_nonvacuous :
 {/template}
 ")) = Some (pit_Error, 5, 6)
   /\ ex_parse (ex_file (b "hello
-")) = Some (pit_EOF, 6, 1).
+")) = Some (pit_EOF, 6, 1)
+  /\ ex_parse (ex_file (b "a /* abc
+b
+{/template}
+")) = Some (pit_Error, 8, 1)
+  /\ ex_parse (ex_file (b "{foo $x}
+{/template}
+")) = Some (pit_DollarIdent, 5, 8).
 Proof. vm_compute. repeat split; reflexivity. Qed.
